@@ -232,7 +232,7 @@ def live(node, m, g):
     return True
 
 
-def validate_ir(ir, input_zero_sized=(), after_fault=False, original_blocks=None, self_loop_blocks=()):
+def validate_ir(ir, input_zero_sized=(), after_fault=False, original_blocks=None, self_loop_blocks=(), input_next=None):
     """Returns a list of (kind, detail) problems."""
     import io
 
@@ -322,6 +322,11 @@ def validate_ir(ir, input_zero_sized=(), after_fault=False, original_blocks=None
                     nxt = None
                 if prv is not None and prv not in original_blocks:
                     prv = None
+            # blocks are processed in address order, so when an input block
+            # was deleted its successor in the input was still there (it may
+            # have been deleted afterwards)
+            if input_next is not None and b in input_next:
+                nxt = input_next[b]
             reasons = []
             if any(True for _ in b.references) and len(blocks) == 1:
                 reasons.append("labels, only block of the section")
